@@ -45,9 +45,10 @@ CASES = [
  ("C19", "basic/random.py", "        if n < 0 or n > N:\n            n = N", "        if not (0 <= n <= N):\n            n = N", "keep"),
  ("C19", "stochastic/_ranker.py", "        if n < 0 or n > N:\n            n = N", "        if not (0 < n <= N):\n            n = N", "break"),
 ]
-import py2lean_np, py2lean_scatter, py2lean_imp, py2lean_holdout, py2lean_arrow
+import py2lean_np, py2lean_scatter, py2lean_imp, py2lean_holdout, py2lean_arrow, py2lean_cand
 # other per-run translators: (generated file, obligations module, generator, its Unsupported)
-OTHER = {"C17sc": ("ArrowScalarC17.lean", "LK.Proofs.ArrowC17", py2lean_arrow.translate_scalar, py2lean_arrow.Unsupported),
+OTHER = {"C03cand": ("CandC03.lean", "LK.Proofs.CandC03", py2lean_cand.translate, py2lean_cand.Unsupported),
+         "C17sc": ("ArrowScalarC17.lean", "LK.Proofs.ArrowC17", py2lean_arrow.translate_scalar, py2lean_arrow.Unsupported),
          "C17ar": ("ArrowC17.lean", "LK.Proofs.ArrowC17", py2lean_arrow.translate, py2lean_arrow.Unsupported),
          "C05ho": ("HoldoutC05.lean", "LK.Proofs.HoldoutC05", py2lean_holdout.generate, py2lean_holdout.Unsupported),
          "C08imp": ("ImpC08.lean", "LK.Proofs.ImpC08", py2lean_imp.translate, py2lean_imp.Unsupported),
@@ -55,6 +56,8 @@ OTHER = {"C17sc": ("ArrowScalarC17.lean", "LK.Proofs.ArrowC17", py2lean_arrow.tr
          "C08np": ("NpC08.lean", "LK.Proofs.NpC08", py2lean_np.translate_learn, py2lean_np.Unsupported),
          "C04sc": ("ScatterC04.lean", "LK.Proofs.ScatterC04", py2lean_scatter.generate, py2lean_scatter.Unsupported)}
 CASES += [
+ ("C03cand", "basic/candidates.py", "            qis = qis[qis >= 0]\n", "", "break"),
+ ("C03cand", "basic/candidates.py", "            mask[qis] = False", "            mask[qis] = True", "break"),
  ("C17sc", "data/builder.py", "        val_array = val_array.take(pa.array(np.argsort(nums.to_numpy(), kind=\"stable\")))\n", "", "break"),
  ("C17sc", "data/builder.py", "        tbl_mask[nums.to_numpy()] = True", "        tbl_mask[nums.to_numpy() - 1] = True", "break"),
  ("C17ar", "data/builder.py", "    sizes[rows + 1] = lists.value_lengths().to_numpy()", "    sizes[rows] = lists.value_lengths().to_numpy()", "break"),
